@@ -14,7 +14,11 @@ const char *vp_co_name(int id);
 void vp_point(const char *tag);                              /* scheduling point */
 void vp_yield_free(const char *tag);                         /* voluntary yield: switching costs nothing */
 void vp_block(int (*ready)(void *), void *arg, const char *what);
-void vp_co_abort(void);                                      /* cut this execution from inside a coroutine */
+void vp_co_abort(void);
+void vp_co_exit(void);                                       /* the running coroutine ends here */
+void vp_co_kill(int id);                                     /* coroutine id is never resumed again */
+extern int (*vp_idle_hook)(void);
+extern void (*vp_switch_hook)(int from, int to);                                      /* cut this execution from inside a coroutine */
 
 /* local-state tracking for state keys: everything a coroutine has read since its last call boundary */
 void vp_local_mix(uint64_t v);
@@ -24,6 +28,7 @@ uint64_t vp_local_hash(int id);
  * (global state, all local states, blocked/done flags) key was seen before */
 void vp_set_state_fn(uint64_t (*fn)(void));
 extern int vp_sched_active;
+extern int vp_sync_points;
 extern size_t vp_stack_size;                                 /* coroutine stack size (<= 1 MiB), default 256 KiB */
 
 /* optional: address-independent form of an 8-byte value a coroutine read (pointers) */
